@@ -87,6 +87,7 @@ type raceState struct {
 	cells       map[interface{}]*shadow
 	waiters     map[interface{}][]*gor
 	wg          map[*value]int
+	wpending    map[*value]int // writers waiting in (*RWMutex).Lock / (*Mutex).Lock
 	reported    map[string]bool
 	races       int
 }
@@ -103,6 +104,7 @@ func vfRace(fr *frame, a []value) value {
 		cells:      map[interface{}]*shadow{},
 		waiters:    map[interface{}][]*gor{},
 		wg:         map[*value]int{},
+		wpending:   map[*value]int{},
 		reported:   map[string]bool{},
 	}
 	i.sched.beforeBlock = func() {
